@@ -427,7 +427,7 @@ def h_extract(ctx, kind, tagged):
   if kind == 'ip':
     proto = ctx.int('proto', 0, 255)
     for v in (2, 47): ctx.assume(proto != v)                  # IGMP / GRE bodies are not part of the OpenFlow tuple; keep parsing simple
-    tos = ctx.int('tos', 0, 63) << 2
+    tos8 = ctx.int('tos', 0, 255); tos = tos8 & 0xfc          # the match carries the six DSCP bits (upper bits of the ToS byte); the two ECN bits are not part of it
     fragword = ctx.int('fragword', 0, 0xffff)                  # 3 flag bits + 13-bit offset
     ipsrc = list(ctx.bytes('ipsrc', 4)); ipdst = list(ctx.bytes('ipdst', 4))
     sport = ctx.int('sport', 0, 0xffff); dport = ctx.int('dport', 0, 0xffff)
@@ -440,7 +440,7 @@ def h_extract(ctx, kind, tagged):
     if bool(is_udp): seg = l4u
     elif bool(is_icmp): seg = l4i
     else: seg = l4
-    ip = [0x45, tos] + be(20 + len(seg), 2) + [0, 0] + be(fragword, 2) + [64, proto, 0, 0] + ipsrc + ipdst
+    ip = [0x45, tos8] + be(20 + len(seg), 2) + [0, 0] + be(fragword, 2) + [64, proto, 0, 0] + ipsrc + ipdst
     b += [0x08, 0x00] + ip + seg
     frag = Or((fragword & 0x2000) != 0, (fragword & 0x1fff) != 0)
     exp.update(dl_type=0x0800, nw_tos=tos, nw_proto=proto, nw_src=num(ipsrc), nw_dst=num(ipdst))
@@ -453,8 +453,9 @@ def h_extract(ctx, kind, tagged):
     spa = list(ctx.bytes('spa', 4)); tpa = list(ctx.bytes('tpa', 4))
     b += [0x08, 0x06] + [0, 1, 8, 0, 6, 4] + be(op, 2) + list(ctx.bytes('sha', 6)) + spa + list(ctx.bytes('tha', 6)) + tpa
     exp.update(dl_type=0x0806)
-    if bool(op <= 255): exp.update(nw_proto=op, nw_src=num(spa), nw_dst=num(tpa), nw_tos=None, tp_src=None, tp_dst=None)
-    else: exp.update({k: None for k in absent})
+    # OpenFlow 1.0 Table 3: nw_proto carries the lower 8 bits of the ARP opcode, nw_src / nw_dst the sender / target protocol address - whatever the opcode
+    exp.update(nw_proto=op & 0xff, nw_src=num(spa), nw_dst=num(tpa), nw_tos=None, tp_src=None, tp_dst=None)
+    if bool(op > 255): ctx.witness('arp-opcode-above-255')
   elif kind == 'qinq':
     # a second 802.1Q tag behind the first: OpenFlow 1.0 looks at the outermost tag only - the ethertype that follows it (0x8100) is the
     # dl_type, and nothing behind it (an IPv4/UDP datagram here) contributes to the tuple
@@ -505,7 +506,7 @@ def obligations(tier):
   return [
     Obligation('O1_matcher', h_matcher, [dict(kind=k, tied=not thorough) for k in kinds], witnesses=('matched', 'nomatch'),
                desc='matches_with_wildcards(flow, packet) <=> OpenFlow 1.0 predicate, flow decoded from symbolic wire bytes'),
-    Obligation('O2_extract', h_extract, [dict(kind=k, tagged=t) for k in ('ip', 'arp', 'other') for t in (False, True)] + [dict(kind='llc', tagged=False), dict(kind='snap', tagged=False), dict(kind='qinq', tagged=True)],
+    Obligation('O2_extract', h_extract, [dict(kind=k, tagged=t) for k in ('ip', 'arp', 'other') for t in (False, True)] + [dict(kind='llc', tagged=False), dict(kind='snap', tagged=False), dict(kind='llc', tagged=True), dict(kind='snap', tagged=True), dict(kind='qinq', tagged=True)],
                witnesses=('extracted', 'fragment', 'ports', 'icmp', 'snap-oui0'), max_decisions=20000,
                desc='from_packet field extraction vs byte-offset extractor: VLAN tag, ARP, ICMP type/code, fragments (MF or offset) zero the ports'),
     Obligation('O3_insert', h_insert, [dict(n=3, prefixes=True)] + [dict(n=k) for k in ((3, 4, 5) if not thorough else (3, 4, 5, 6, 7))], witnesses=('done', 'exact', 'prefix'), max_decisions=20000,
